@@ -10,6 +10,9 @@ CONSTANTS
   DoEmit = TRUE
   Bug = "none"
   Hist = 0
+  DsHist = 0
+  DsOps = {}
+  NMon = 0
   Shape = "tree"
 SYMMETRY Sym
 INVARIANT TypeOK
